@@ -2,7 +2,10 @@
 // harness instantiates *the repository's own token stream* over toy fields (DESIGN.md §2/M1).
 use std::{env, fs, path::PathBuf};
 fn main() {
-    let src = "/repo/src/bls12_381/ec/mod.rs";
+    let repo = env::var("PPVERIF_REPO").unwrap_or_else(|_| "/repo".to_string());
+    let src = format!("{}/src/bls12_381/ec/mod.rs", repo);
+    let src = src.as_str();
+    println!("cargo:rerun-if-env-changed=PPVERIF_REPO");
     println!("cargo:rerun-if-changed={}", src);
     println!("cargo:rerun-if-changed=build.rs");
     let text = fs::read_to_string(src).expect("read ec/mod.rs");
